@@ -43,6 +43,13 @@ theorem notEnded_false_of_ended {mi : Nat} {s : Fw σ} (h : Ended mi s) : notEnd
     have hend : r.currentState = STATE_END := by simpa using h
     simp [hend]
 
+theorem ended_callStart {mi : Nat} {s : Fw σ} {t : Int} (h : Ended mi s) : Ended mi (s.callStart t) := by
+  unfold Ended at h ⊢
+  simp only [Fw.callStart, List.getElem?_map]
+  cases hr : s.rt[mi]? with
+  | none => rw [hr] at h; simp at h
+  | some r => rw [hr] at h; simpa using h
+
 theorem walkQuiet (mi : Nat) : Walk ρ (fun (s t : Fw σ) => Quiet mi s → Quiet mi t) where
   refl _ h := h
   trans h₁ h₂ h := h₂ (h₁ h)
@@ -77,7 +84,7 @@ theorem walkQuiet (mi : Nat) : Walk ρ (fun (s t : Fw σ) => Quiet mi s → Quie
   fault s f hq := ⟨by have := hq.1; unfold Ended at this ⊢; simpa using this, fun a => by simpa using hq.2 a⟩
   signal _ _ hq := hq
   callStart s t hq := by
-    refine ⟨hq.1, fun a h => ?_⟩
+    refine ⟨ended_callStart hq.1, fun a h => ?_⟩
     change (List.map (fun _ => (none : Option TAction)) s.actions)[mi]? = some (some a) at h
     rw [List.getElem?_map] at h
     cases h' : s.actions[mi]? <;> simp [h'] at h
@@ -88,7 +95,7 @@ theorem triggerEvents_quiet (mi : Nat) (es : List TEvent) (t : Int) (s : Fw σ) 
   have W := walkQuiet ρ (σ := σ) mi
   unfold triggerEvents
   have h0 : Quiet mi (s.callStart t) := by
-    refine ⟨h, fun a h => ?_⟩
+    refine ⟨ended_callStart h, fun a h => ?_⟩
     change (List.map (fun _ => (none : Option TAction)) s.actions)[mi]? = some (some a) at h
     rw [List.getElem?_map] at h
     cases h' : s.actions[mi]? <;> simp [h'] at h
